@@ -11,6 +11,11 @@ THEOREMS = [("FlatModel.Props.C14", t) for t in (
     "FC.C14.columns_copy_between_regions", "FC.cloneOnto_list")]
 THEOREMS += [("FlatModel.Props.C14b", t) for t in (
     "FC.C14.option_cloneOnto_eq", "FC.C14.option_cloneOnto_arms", "FC.C14.option_borrow_roundtrip", "FC.C14.option_reborrow_id", "FC.C14.result_cloneOnto_eq", "FC.C14.result_cloneOnto_arms", "FC.C14.result_borrow_roundtrip", "FC.C14.result_reborrow_id", "FC.C14.tuple_cloneOnto_eq", "FC.C14.tuple_borrow_roundtrip", "FC.C14.tuple_reborrow_id", "FC.C14.slice_cloneOnto_eq", "FC.C14.slice_borrow_roundtrip", "FC.C14.slice_reborrow_id", "FC.C14.readSlice_cloneOnto_is_slice", "FC.C14.readColumns_cloneOnto_is_slice", "FC.C14.cloneOnto_nested", "FC.C14.borrowAs_nested", "FC.C14.roundtrip_nested", "FC.C14.cloneOnto_overwrites", "FC.C14.wrapped_cloneOnto_eq", "FC.C14.wrapped_cloneOnto_eq_intoOwned", "FC.C14.wrapped_intoOwned_eq", "FC.C14.wrapped_borrow_roundtrip", "FC.C14.wrapped_reborrow_id", "FC.C14.item_bind_decode_eq_index", "FC.C14.item_decode_eq_index", "FC.C14.item_decodes", "FC.C14.huffman_push_intoOwned", "FC.C14.huffman_copy_between", "FC.C14.huffman_item_ok", "FC.C14.wrappedOK_ops", "FC.C14.readSliceOK_ops", "FC.SliceItem.cloneOnto_eq")]
+THEOREMS += [("FlatModel.Props.C14c", t) for t in (
+    "FC.C14.read_intoOwned", "FC.C14.intoOwnedAt_eq_index", "FC.C14.cloneOntoAt_eq_index", "FC.C14.cloneOntoAt_indep", "FC.C14.cloneOntoAt_isSome", "FC.C14.slice_items?_eq_iter", "FC.C14.slice_cloneOntoAt_backed", "FC.C14.slice_cloneOntoAt_borrowed", "FC.C14.itemRow_eq_readRow", "FC.C14.columns_cloneOntoAt_backed", "FC.C14.huffman_cmpItems", "FC.C14.iterEqBy_total", "FC.C14.iterCmpBy_total", "FC.C14.wrappedOK_cmp", "FC.C14.slice_wrappedOK_cmp", "FC.itemRow_map", "FC.mapM_map_congr", "FC.WrappedOK.some_intoOwned", "FC.WrappedOK.some_cloneOnto", "FC.WrappedOK.ops_eq'", "FC.WrappedOK.ofWrapped?_of_decode", "FC.Wrapped.intoOwned_isSome", "FC.Wrapped.cloneOnto_isSome",
+    "FC.lawfulItems_mirror", "FC.lawfulItems_owned", "FC.lawfulItems_vec", "FC.lawfulItems_codec", "FC.lawfulItems_tupleNil", "FC.lawfulItems_string", "FC.lawfulItems_option", "FC.lawfulItems_result", "FC.lawfulItems_tupleCons", "FC.lawfulItems_slice", "FC.lawfulItems_columns", "FC.lawfulItems_collapse", "FC.lawfulItems_consec", "FC.lawfulItems_flatStack", "FC.lawfulItems_huffman", "FC.lawfulItems_huffU8")]
+# every catalogued composition: the item model the driver answers through obeys `LawfulItemOps` (bridge to `index`)
+LEAN_TARGETS = ["FlatModel.Generated.CoveredItems"]
 PROFILES = {"quick": ["checked"], "thorough": ["checked", "wrapping"], "search": ["checked"]}
 RULE = ("every read item of every catalogue entry: into_owned == pushed value; borrow_as(&into_owned(x)) renders / iterates equal "
         "to x; clone_onto(x, t) for prior targets t (empty, shorter, longer, other variant, nested, equal) leaves t == into_owned(x); "
